@@ -68,7 +68,8 @@ def finish(rep, seed=0):
         if f['property'] == rep.prop:
             for k in f['keys']:
                 kmap[k] = f
-    viol_dir = os.path.join(VERIF, 'evidence', 'violations')
+    evdir = os.environ.get('WBVERIF_EVIDENCE', os.path.join(VERIF, 'evidence'))   # development runs on scratch copies redirect this
+    viol_dir = os.path.join(evdir, 'violations')
     os.makedirs(viol_dir, exist_ok=True)
     for fn in os.listdir(viol_dir):
         if fn.startswith(rep.prop + '-'):
@@ -138,8 +139,8 @@ def finish(rep, seed=0):
         ev['coverage']['notes'] = rep.notes
     if rep.mutants is not None:
         ev['coverage']['mutants'] = rep.mutants
-    os.makedirs(os.path.join(VERIF, 'evidence'), exist_ok=True)
-    with open(os.path.join(VERIF, 'evidence', rep.prop + '.json'), 'w') as fh:
+    os.makedirs(evdir, exist_ok=True)
+    with open(os.path.join(evdir, rep.prop + '.json'), 'w') as fh:
         json.dump(ev, fh, indent=1)
     nk = sum(len(v) for v in matched.values())
     print(f'[{rep.prop}] tier={rep.tier} obligations={len(rep.obligations)} distinct={len(distinct)} '
